@@ -2,7 +2,7 @@
 from oblib import ob
 
 BOUNDS = {"quick": "", "thorough": ""}
-ASSUMPTIONS = ["Token.String (used by the accessors only to build error text) is cut: its result is an opaque string", "strconv.ParseFloat on symbolic digits is an uninterpreted function (value of non-integer literals not checked)"]
+ASSUMPTIONS = ["typed destinations: reflect is the engine's go/types-backed environment model (engine/reflect.go)", "Token.String (used by the accessors only to build error text) is cut: its result is an opaque string", "strconv.ParseFloat on symbolic digits is an uninterpreted function (value of non-integer literals not checked)"]
 
 
 def obligations(tier):
@@ -17,4 +17,16 @@ def obligations(tier):
     TS = "(github.com/go-json-experiment/json/jsontext.Token).String"
     for k in (0, 1, 2, 3):
         L.append(ob("toktyped/kind=%d" % k, "jsontext", "VerifC10TokTyped", [k], timeout_ms=120000, second="z3-new" if k < 2 else "", opaque=[TS], max_seconds=1500))
+    # typed integer destinations (real Unmarshal through the reflect environment)
+    for bits in (8, 16, 32, 64):
+        for signed in (True, False):
+            nds = {8: [3], 16: [5], 32: [10], 64: [19, 20]}[bits] if q else {8: [1, 3, 4], 16: [5, 6], 32: [10, 11], 64: [19, 20, 21]}[bits]
+            for nd in nds:
+                for neg in (False, True):
+                    L.append(ob("intA/bits=%d/signed=%d/neg=%d/digits=%d" % (bits, signed, neg, nd), ".", "VerifC10IntA", [bits, signed, neg, nd, ""], covers=["refused"], timeout_ms=60000, max_seconds=600))
+    for bits, signed, tail in ((8, True, ".0"), (64, False, "e0"), (16, True, ".5")):
+        L.append(ob("intA/bits=%d/signed=%d/tail=%s" % (bits, signed, tail), ".", "VerifC10IntA", [bits, signed, False, 1, tail], covers=["refused"], max_seconds=600))
+    for signed in (True, False):
+        for neg in (False, True):
+            L.append(ob("intQ/signed=%d/neg=%d" % (signed, neg), ".", "VerifC10IntQuoted", [signed, neg, 3, ""], covers=["refused"], max_seconds=600))
     return L
